@@ -563,7 +563,50 @@ def r5_payload_provenance(ctx):
                         'parameter of execute()')
 
 
+def r6_nothing_changes_before_evolving(ctx):
+    """`evolving` is emitted "before any change is made": nothing that
+    Evolver.evolve() calls before evolving.send() (task preparation) may reach
+    a state-changing primitive - executing SQL, ORM writes of the
+    bookkeeping tables, recording / applying migrations, or creating the
+    django_migrations table (MigrationRecorder.ensure_schema)."""
+    ctx.rule('R-C17.6')
+    from .c12 import sink_sites
+    p = ctx.program
+    ev = p.func(EVOLVER, 'Evolver.evolve')
+    g = ctx.cfg(ev)
+    sends = signal_sends(g, 'evolving')
+    if not sends:
+        raise AnalysisError('R-C17.6: evolving.send not found in evolve()')
+    send_node = sends[0][0]
+    roots = []
+    for n in g.nodes:
+        if n is send_node:
+            continue
+        if send_node.id in g.reachable([n], follow_exc=False) and \
+                not g.dominates(send_node, n):
+            for c in n.calls():
+                targets, _prec = ctx.resolve(ev, c)
+                roots += targets
+    ctx.floor('calls in evolve() before evolving.send', len(roots), 1)
+    reach = p.reachable_funcs(roots)
+    n_funcs, bad = 0, 0
+    for fq, f in sorted(reach.items()):
+        n_funcs += 1
+        for c, desc in sink_sites(ctx, f):
+            bad += 1
+            ctx.finding(f, c, 'state-changing %s is reachable from '
+                        'Evolver.evolve() before evolving.send(): the '
+                        'database is changed before the run is announced '
+                        '(and by preview-only flows that emit no signal at '
+                        'all)' % desc, key='change-before-evolving:%s' % desc)
+    if not bad:
+        ctx.ok(ev, 'no state-changing primitive among %d functions reachable '
+               'before evolving.send()' % n_funcs)
+    ctx.floor('functions reachable before evolving.send', n_funcs, 50)
+
+
 def run(ctx):
+    r6_nothing_changes_before_evolving(ctx)
     r5_payload_provenance(ctx)
     r1_run_level(ctx)
     r2_step_level(ctx)
